@@ -56,6 +56,8 @@ func runToggle(c driver.Case) driver.Result {
 	var found []driver.Finding
 	var exp expectation
 	exp.hidden = -1
+	// Map lets every value through, Filter the ones that reach the subscriber; both hand on the context they got
+	exp.proc, exp.derived, exp.names = []int64{0, 0}, []int64{0, 0}, []string{"Map(inc)", "Filter(notMul3)"}
 	for pi, ph := range phases {
 		roprometheus.VerifSetBypassLicenseCheck(ph == "on")
 		for j := 0; j < k; j++ {
@@ -73,10 +75,12 @@ func runToggle(c driver.Case) driver.Result {
 				exp.subs++
 				exp.in += nIn
 				exp.out += nOut
+				exp.proc[0], exp.derived[0] = exp.proc[0]+nIn, exp.derived[0]+nIn
+				exp.proc[1], exp.derived[1] = exp.proc[1]+nOut, exp.derived[1]+nOut
 			}
 		}
 		// counters after this phase, read with the licence as it is now
-		in := instrumented{obs: obs, col: col, n: 2, hidden: -1, ops: 0}
+		in := instrumented{obs: obs, col: col, n: 2, hidden: -1, ops: 2}
 		v := in.view("")
 		if ph != "on" {
 			if v.metrics != 0 {
@@ -85,9 +89,6 @@ func runToggle(c driver.Case) driver.Result {
 			continue
 		}
 		for _, a := range counters(v, exp, true) {
-			if strings.HasPrefix(a.class, "processing-time") {
-				continue
-			}
 			found = append(found, driver.Finding{Key: "C19/licence-toggle/" + a.class, Msg: fmt.Sprintf("after phase %d (licence on; %d subscription(s) made while it was on): %s", pi, exp.subs, a.msg)})
 		}
 	}
